@@ -45,7 +45,7 @@ Wrap(v) == IF "w" \in DOMAIN v THEN v.w ELSE <<>>
 \* reflect.Kind classes as equalValue / jsonType see them
 JNReps == {"jsonNumber", "jsonNumberE"}
 IntReps == {"int", "int8", "int16", "int32", "int64", "uint", "uint8", "uint16", "uint32", "uint64", "uintptr", "namedInt"}
-FloatReps == {"float64", "float32", "namedFloat"}
+FloatReps == {"float64", "float32", "namedFloat", "negzero"}
 Kind(v) ==
   CASE v.t = "null" -> "invalid"
     [] v.t = "bool" -> "bool"
